@@ -91,34 +91,61 @@ def one_case(ctx, case):
 
     from qucumber.callbacks import LambdaCallback
     cb = LambdaCallback(on_epoch_start=lambda s, e: log["events"].append(f"es{e}"), on_epoch_end=lambda s, e: log["events"].append(f"ee{e}"))
-    kw = dict(epochs=case["epochs"], pos_batch_size=case["pos_bs"], neg_batch_size=case["neg_bs"], k=case["k"], lr=case["lr"],
+    start = case.get("start", 1)
+    last = start + case["epochs"] - 1
+    kw = dict(epochs=last, starting_epoch=start, pos_batch_size=case["pos_bs"], neg_batch_size=case["neg_bs"], k=case["k"], lr=case["lr"],
               optimizer=RecSGD, scheduler=CountSched, callbacks=[cb])
-    if kind == "pos":
-        st.fit(torch.tensor(data, dtype=torch.double), **kw)
-    else:
-        st.fit(torch.tensor(data, dtype=torch.double), input_bases=bases, **kw)
+    runs = [(case["lr"], data)]
+    if case.get("second_lr") is not None:  # a second fit on the SAME object: other learning rate, other (same-shaped) data
+        runs.append((case["second_lr"], np.asarray(case["second_data"], dtype=float)))
+    run_bounds = []
+    for lr_run, data_run in runs:
+        kw["lr"] = lr_run
+        n_before = len(log["batches"])
+        if kind == "pos":
+            st.fit(torch.tensor(data_run, dtype=torch.double), **kw)
+        else:
+            st.fit(torch.tensor(data_run, dtype=torch.double), input_bases=bases, **kw)
+        run_bounds.append((n_before, len(log["batches"]), lr_run, data_run))
 
     N = len(data)
     nb = -(-N // case["pos_bs"])
     neg_bs = case["neg_bs"] if case["neg_bs"] else case["pos_bs"]
     nontriv = nb >= 2 and case["k"] >= 1
-    ctx.case({k: case[k] for k in ("kind", "n", "h", "k", "lr", "epochs", "pos_bs", "neg_bs", "seed", "data", "bases")}, nontrivial=nontriv,
+    ctx.count(f"starting_epoch={start}"); ctx.count("second_fit" if len(run_bounds) > 1 else "single_fit")
+    ctx.case({k: case.get(k) for k in ("kind", "n", "h", "k", "lr", "epochs", "pos_bs", "neg_bs", "seed", "data", "bases", "start", "second_lr")}, nontrivial=nontriv,
              sample={"kind": kind, "n": n, "h": h, "N": N, "pos_bs": case["pos_bs"], "neg_bs": case["neg_bs"], "k": case["k"], "lr": case["lr"],
                      "epochs": case["epochs"], "batches_seen": len(log["batches"])})
     ctx.count(f"kind={kind}"); ctx.count(f"k={case['k']}"); ctx.count("neg==pos" if neg_bs == case["pos_bs"] else "neg!=pos")
     ctx.count("N%pos==0" if N % case["pos_bs"] == 0 else "N%pos!=0")
 
-    # --- schedule-level oracles
-    ctx.oracle("one optimizer step per batch", len(log["batches"]) == nb * case["epochs"], case,
-               detail={"steps": len(log["batches"]), "expected": nb * case["epochs"]}, sig=f"{kind}/steps-per-epoch", theorem=TH["after"])
+    # --- schedule-level oracles (per fit call)
+    nruns = len(run_bounds)
+    ctx.oracle("one optimizer step per batch", len(log["batches"]) == nb * case["epochs"] * nruns, case,
+               detail={"steps": len(log["batches"]), "expected": nb * case["epochs"] * nruns}, sig=f"{kind}/steps-per-epoch", theorem=TH["after"])
     ev = log["events"]
-    ok_sched = len(log["sched"]) == case["epochs"] and log["sched"] == [nb * (e + 1) for e in range(case["epochs"])]
-    for e in range(1, case["epochs"] + 1):
-        i_s, i_e = ev.index(f"es{e}"), ev.index(f"ee{e}")
-        seg = ev[i_s + 1:i_e]
-        ok_sched = ok_sched and seg == ["opt"] * nb + ["sched"]
-    ctx.oracle("scheduler stepped once per epoch, after the last batch, before epoch end", bool(ok_sched), case,
+    per_run = nb * case["epochs"]
+    ok_sched = len(log["sched"]) == case["epochs"] * nruns and \
+        log["sched"] == [r * per_run + nb * (e + 1) for r in range(nruns) for e in range(case["epochs"])]
+    pos = 0
+    for r in range(nruns):
+        for e in range(start, last + 1):
+            try:
+                i_s = ev.index(f"es{e}", pos); i_e = ev.index(f"ee{e}", i_s)
+            except ValueError:
+                ok_sched = False
+                break
+            ok_sched = ok_sched and ev[i_s + 1:i_e] == ["opt"] * nb + ["sched"] and ev[pos:i_s] == []
+            pos = i_e + 1
+    ctx.oracle("scheduler stepped once per epoch, after the last batch, before epoch end, never outside an epoch", bool(ok_sched), case,
                detail={"sched": log["sched"], "events": ev[:40]}, sig=f"{kind}/scheduler", theorem=TH["sched"])
+    for (a0, a1, lr_run, data_run) in run_bounds:
+        rows_ok = all(any(np.array_equal(row, d) for d in data_run) for rec in log["batches"][a0:a1] for row in rec["pos"])
+        neg_ok = all(any(np.array_equal(row, d) for d in data_run) for rec in log["batches"][a0:a1] for row in rec["neg"])
+        ctx.oracle("every batch of a fit call uses the learning rate and the data of THAT call", rows_ok and neg_ok and
+                   all(abs(rec["lr"] - lr_run) <= 1e-15 for rec in log["batches"][a0:a1]), case,
+                   detail={"lrs": sorted({rec["lr"] for rec in log["batches"][a0:a1]}), "expected_lr": lr_run, "rows_ok": rows_ok, "neg_ok": neg_ok},
+                   sig=f"{kind}/per-call-config", theorem=TH["after"])
 
     D = dict_np()
     dict_enc = {L: [[[f2b(D[L][r][c].real), f2b(D[L][r][c].imag)] for c in range(2)] for r in range(2)] for L in "XYZ"}
@@ -193,8 +220,14 @@ def gen_cases(ctx, thorough):
                 am = qc.rand_prbm_params(rng, n, h, a, scale); ph = qc.rand_prbm_params(rng, n, h, a, scale, d_zero=True)
             else:
                 am = qc.rand_rbm_params(rng, n, h, scale); ph = qc.rand_rbm_params(rng, n, h, scale) if kind == "cplx" else None
+            second = rng.random() < 0.5
+            rows2 = [[rng.randint(0, 1) for _ in range(n)] for _ in range(N)]
+            if kind != "pos":  # keep the reference-basis row pattern meaningful for the second data set too
+                rows2[0] = data[0]
             out.append({"kind": kind, "n": n, "h": h, "a": a, "am": am, "ph": ph, "data": data, "bases": bases, "pos_bs": pos_bs, "neg_bs": neg_bs,
-                        "k": rng.choice([0, 1, 2, 3]), "lr": rng.choice([0.5, 0.05, 1e-3]), "epochs": rng.choice([1, 2, 3]), "seed": rng.randrange(1 << 30)})
+                        "k": rng.choice([0, 1, 2, 3]), "lr": rng.choice([0.5, 0.05, 1e-3]), "epochs": rng.choice([1, 2, 3]), "seed": rng.randrange(1 << 30),
+                        "start": rng.choice([1, 1, 2, 4]), "second_lr": (rng.choice([0.25, 0.01]) if second else None),
+                        "second_data": (rows2 if second else None)})
     return out
 
 
